@@ -33,7 +33,7 @@ def build_cases(ctx):
     nrand = 5000 if quick else 60000
     for _ in range(nrand):
         n = rng.randint(9, 40) if rng.random() < 0.03 else rng.randint(3, 8)
-        stmts = [gendoc.Stmt(rng.choice(kinds), 10 + i) for i in range(n)]
+        stmts = [gendoc.Stmt(rng.choice(kinds + ['await_expr', 'async_await', 'with', 'try']), 10 + i) for i in range(n)]
         positions = [j for j in range(n) if rng.random() < 0.45]
         if not positions:
             positions = [rng.randrange(n)]
